@@ -63,13 +63,14 @@ Print Assumptions C12_ref_counts_holders.
 (* The reclaim rule, and "a session with a holder is never released": whenever an operation
    releases a session, that session was in the table and
    - idle scan: ref = 0 (no holder at all), no delayed message, and timed out or state NONE;
-   - arrival of a new peer: the idle limit is reached, the session is idle and no idle session
-     is older;
+   - arrival of a new peer (OpRx: the code's own choice; OpRxV: any choice the property allows,
+     the operation names the victim): the idle limit is reached, the session is idle and no idle
+     session is older;
    - coap_free_context: no application reference (the library's own holders - queue nodes,
      observers, async entries - are destroyed by the teardown itself);
    no other operation releases anything. *)
 Theorem C12_reclaim_rule : forall c ops st op sid,
-  se_run c se_init ops = Some st -> se_op_ok st op = true ->
+  se_run c se_init ops = Some st -> se_op_ok c st op = true ->
   In (SeFree sid) (se_new_events c st op) ->
   exists s, In s (st_tbl st) /\ ss_id s = sid /\
     match op with
@@ -78,6 +79,11 @@ Theorem C12_reclaim_rule : forall c ops st op sid,
         (ss_last s + se_timeout_ticks c <= now \/ ss_state s = se_state_none)
     | OpRx key now =>
         se_find key (st_tbl st) = None /\
+        0 < cf_max_idle c <= se_count_idle (st_tbl st) /\
+        ss_ref s = 0 /\ ss_holders s = [] /\ ss_dq s = true /\
+        (forall s', In s' (st_tbl st) -> se_idle s' = true -> ss_last s <= ss_last s')
+    | OpRxV key now v =>
+        v = sid /\ se_find key (st_tbl st) = None /\
         0 < cf_max_idle c <= se_count_idle (st_tbl st) /\
         ss_ref s = 0 /\ ss_holders s = [] /\ ss_dq s = true /\
         (forall s', In s' (st_tbl st) -> se_idle s' = true -> ss_last s <= ss_last s')
@@ -117,11 +123,26 @@ Theorem C12_idle_limit_evicts_oldest : forall c st key now,
 Proof. exact se_evict_complete. Qed.
 Print Assumptions C12_idle_limit_evicts_oldest.
 
+(* the code's choice (the first of the oldest idle sessions in iteration order) is one of the
+   victims the property allows, and naming it gives the same step: when several idle sessions are
+   equally old the theorems above hold for whichever of them an implementation evicts *)
+Theorem C12_code_choice_is_allowed : forall c tbl o,
+  se_rx_evict c tbl = Some o -> se_valid_victim c tbl o = true.
+Proof. exact se_evict_is_valid. Qed.
+Print Assumptions C12_code_choice_is_allowed.
+
+Theorem C12_named_victim_same_step : forall c st key now o,
+  NoDup (map ss_id (st_tbl st)) ->
+  se_find key (st_tbl st) = None -> se_rx_evict c (st_tbl st) = Some o ->
+  se_step c st (OpRxV key now (ss_id o)) = se_step c st (OpRx key now).
+Proof. exact se_rx_victim_same. Qed.
+Print Assumptions C12_named_victim_same_step.
+
 (* After coap_free_context nothing remains in the endpoint; what is left behind are exactly
    sessions on which the application still holds a reference; if there is none, nothing is left
    and every session that was ever announced got its DEL and its release. *)
 Theorem C12_teardown_empty : forall c ops st,
-  se_run c se_init ops = Some st -> se_op_ok st OpFreeContext = true ->
+  se_run c se_init ops = Some st -> se_op_ok c st OpFreeContext = true ->
   let st' := se_step c st OpFreeContext in
   st_tbl st' = [] /\ st_alive st' = false /\
   (forall s, In s (st_leaked st') ->
